@@ -25,6 +25,8 @@ rc=0
 # library code under the engine against byte-loop references, solver-decided
 [ -x $verif/bin/gosym ] || (cd $verif/engine && go build -o ../bin/gosym .)
 (cd $verif && VERIF_DIR=$verif ./bin/gosym check -spec modelcheck/libspec -noevidence 2>&1 | grep "^\[MODELS\]\|^OK\|VIOLATION\|UNCONFIRMED\|INCONCLUSIVE"; exit ${PIPESTATUS[0]}) || rc=1
+# litmus tests of the happens-before race detector
+(cd $verif && VERIF_DIR=$verif ./bin/gosym check -spec modelcheck/racespec -noevidence 2>&1 | grep "^\[RACEMODEL\]\|^OK\|VIOLATION\|UNCONFIRMED\|INCONCLUSIVE"; exit ${PIPESTATUS[0]}) || rc=1
 rm -rf $work
 [ $rc = 0 ] && echo "modelcheck ok"
 exit $rc
